@@ -223,7 +223,7 @@ func (r *checkRun) nativeValidate(res *unitResult) {
 // of the real SSA in the engine under the model.
 func (r *checkRun) confirm(res *unitResult, v *sx.Violation, n int) *confirmedViolation {
 	cv := &confirmedViolation{unit: res, v: v}
-	dir := filepath.Join(verifRoot, "replays", r.id, fmt.Sprintf("%s-%d", res.spec.Name, n))
+	dir := filepath.Join(outRoot(), "replays", r.id, fmt.Sprintf("%s-%d", res.spec.Name, n))
 	os.RemoveAll(dir)
 	os.MkdirAll(dir, 0o755)
 	cv.replayDir = dir
@@ -530,9 +530,9 @@ func (r *checkRun) finish(partial bool) int {
 	ev["assumptions"] = assum
 	ev["wall_s"] = round2(r.wall.Seconds())
 	ev["violations"] = vioCount
-	os.MkdirAll(filepath.Join(verifRoot, "evidence"), 0o755)
+	os.MkdirAll(filepath.Join(outRoot(), "evidence"), 0o755)
 	b, _ := json.MarshalIndent(ev, "", " ")
-	os.WriteFile(filepath.Join(verifRoot, "evidence", r.id+".json"), b, 0o644)
+	os.WriteFile(filepath.Join(outRoot(), "evidence", r.id+".json"), b, 0o644)
 	fmt.Printf("SUMMARY property=%s tier=%s units=%d paths=%d obligations=%d/%d queries=%d (unknown %d) validated_natively=%d disagreements=%d known=%d new=%d inconclusive=%d wall=%.1fs\n",
 		r.id, r.tier, len(r.units), paths, disch, oblig, queries, qunknown, validated, disagreements, len(knownHit), len(newVio), len(inconclusive), r.wall.Seconds())
 	return rc
@@ -580,4 +580,13 @@ func cmdReplay(args []string) int {
 	}
 	fmt.Printf("engine replay: stored violation:\n%s\n", raw)
 	return 0
+}
+
+// outRoot is where evidence/ and replays/ are written: /verif, or VERIF_OUT for runs against a mutated
+// scratch copy (seed matrix), whose output must not replace the evidence of the unchanged tree.
+func outRoot() string {
+	if o := os.Getenv("VERIF_OUT"); o != "" {
+		return o
+	}
+	return verifRoot
 }
